@@ -10,6 +10,7 @@ import (
 
 	"verifharness/gen"
 	"verifharness/mon"
+	"verifharness/refts"
 )
 
 func init() {
@@ -62,10 +63,25 @@ func runC18(c *mon.Ctx) {
 				}
 			}
 		}
+		// the same packets in the 188+4 framing, explicit and auto-detected
+		big := refts.Reframe(s.Bytes, 4, func(p, j int) byte { return byte(0x10 + p + j) })
+		if s.Bytes[184] != 0x47 && s.Bytes[185] != 0x47 && s.Bytes[186] != 0x47 && s.Bytes[187] != 0x47 {
+			for _, rd := range []string{"seek", "plain", "bufio"} {
+				for _, ps := range []int{192, 0} {
+					cfgs = append(cfgs, DemuxCfg{PacketSize: ps, Reader: rd, API: []string{"packet", "data"}[len(cfgs)%2], BufioSize: 4097})
+				}
+			}
+		}
+		inputFor := func(cfg DemuxCfg) []byte {
+			if cfg.BufioSize == 4097 {
+				return big
+			}
+			return s.Bytes
+		}
 		base := map[string][]Item{}
 		for _, cfg := range cfgs {
-			run := RunDemux(s.Bytes, cfg)
-			base[cfg.String()] = run.Items
+			run := RunDemux(inputFor(cfg), cfg)
+			base[cfg.String()+fmt.Sprint(cfg.BufioSize)] = run.Items
 		}
 		var offs []int
 		if L <= 188*6 || c.Thorough() {
@@ -84,11 +100,12 @@ func runC18(c *mon.Ctx) {
 			cfg := cfgs[(f+int(i))%len(cfgs)]
 			if c.Thorough() || L <= 188*4 {
 				for _, cf := range cfgs {
-					readerFault(c, i, s, cf, base[cf.String()], f)
+					readerFault(c, i, inputFor(cf), cf, base[cf.String()+fmt.Sprint(cf.BufioSize)], f)
 				}
 			} else {
-				readerFault(c, i, s, cfg, base[cfg.String()], f)
-				readerFault(c, i, s, cfgs[(f*7+3)%len(cfgs)], base[cfgs[(f*7+3)%len(cfgs)].String()], f)
+				readerFault(c, i, inputFor(cfg), cfg, base[cfg.String()+fmt.Sprint(cfg.BufioSize)], f)
+				c2 := cfgs[(f*7+3)%len(cfgs)]
+				readerFault(c, i, inputFor(c2), c2, base[c2.String()+fmt.Sprint(c2.BufioSize)], f)
 			}
 		}
 		if i < 2 {
@@ -106,10 +123,13 @@ func runC18(c *mon.Ctx) {
 	}
 }
 
-func readerFault(c *mon.Ctx, idx int64, s *gen.Stream, cfg DemuxCfg, base []Item, f int) {
+func readerFault(c *mon.Ctx, idx int64, input []byte, cfg DemuxCfg, base []Item, f int) {
+	if f >= len(input) {
+		return
+	}
 	cfg.HasFail, cfg.FailAt = true, f
-	data := map[string]any{"config": cfg.String(), "fail_at": f, "stream": mon.Hex(s.Bytes, 1200)}
-	dmx, tap := NewDemuxerFor(s.Bytes, cfg)
+	data := map[string]any{"config": cfg.String(), "fail_at": f, "stream": mon.Hex(input, 1200)}
+	dmx, tap := NewDemuxerFor(input, cfg)
 	cls := cfg.Reader + "/" + sizeCls(cfg.PacketSize) + "/" + cfg.API
 	region := "payload"
 	switch {
@@ -123,7 +143,7 @@ func readerFault(c *mon.Ctx, idx int64, s *gen.Stream, cfg DemuxCfg, base []Item
 	}
 	c.Count("reader_fault_region_" + region)
 	var got []Item
-	for call := 0; call < len(s.Bytes)+64; call++ {
+	for call := 0; call < len(input)+64; call++ {
 		var it Item
 		p, v, st := mon.Guarded(func() {
 			if cfg.API == "packet" {
